@@ -196,7 +196,10 @@ def run_one(ns, i, seed_i, tier):
                     break
                 continue
             diverged = not eb.same_outcome(o0, ok)
-            direct = (not diverged) and rng.random() < 0.2
+            # effects of a definition's position other than its visibility (export tables, scopes) are
+            # invisible to the injection: exported constants get the direct check more often
+            p_direct = 0.6 if any(case.defs[k].get("extern") for k, _p in sched) else 0.2
+            direct = (not diverged) and rng.random() < p_direct
             if diverged or direct:
                 if diverged:
                     counters["divergences"] += 1
